@@ -48,7 +48,46 @@ static bool skip_recipe() {
     if (n != 2 * N || ms.size() != 2 * N) { std::printf("REPRODUCED class=skiplist-size multiset holds %zu / iterates %zu elements after %u inserts\n", ms.size(), n, 2 * N); return true; }
     return false;
 }
+// skip list, white box: unsafe_extract / unsafe_erase on the real concurrent_multiset - the node handed out carries no link at any level, and every level's chain of the
+// remaining list is exactly the remaining nodes of that height in level-0 order
+#include <vector>
+template <typename Set> static bool levels_consistent(Set& s, const char* when) {
+    auto* head = s.my_head_ptr.load(); if (!head) return true;
+    std::vector<decltype(head)> all; for (auto* n = head->next(0); n; n = n->next(0)) all.push_back(n);
+    if (all.size() != s.size()) { std::printf("REPRODUCED class=skiplist-size %s: size() == %zu but level 0 holds %zu nodes\n", when, s.size(), all.size()); return false; }
+    for (size_t l = 0; l < head->height(); ++l) { size_t k = 0; auto* n = head->next(l);
+        for (; n; n = n->next(l)) { while (k < all.size() && (all[k]->height() <= l)) ++k;
+            if (k == all.size() || all[k] != n) { std::printf("REPRODUCED class=skiplist-level-chain %s: the chain of level %zu holds a node that is not the next node of that height in level-0 order (stale or skipped link)\n", when, l); return false; } ++k; }
+        while (k < all.size() && (all[k]->height() <= l)) ++k;
+        if (k != all.size()) { std::printf("REPRODUCED class=skiplist-level-chain %s: a node of height > %zu is missing from the chain of level %zu\n", when, l, l); return false; } }
+    return true;
+}
+static bool extract_recipe() {
+    for (unsigned round = 0; round < 8; ++round) {
+        tbb::concurrent_multiset<int> s; for (int i = 0; i < 600; ++i) s.insert((i * 7 + (int)round) % 200);
+        if (!levels_consistent(s, "after the inserts")) return true;
+        unsigned taken = 0;
+        for (auto it = s.begin(); it != s.end();) { auto cur = it++; auto* n = cur.my_node_ptr; size_t h = n->height();
+            if (h < 2 && (taken % 3)) { ++taken; continue; }
+            ++taken; size_t before = s.size(); int key = *cur; auto* follower = n->next(0);
+            auto nh = s.unsafe_extract(cur);
+            if (nh.empty() || tbb::detail::d1::node_handle_accessor::get_node_ptr(nh) != n || s.size() != before - 1) { std::printf("REPRODUCED class=extract-result unsafe_extract of key %d handed out another node or size() went from %zu to %zu\n", key, before, s.size()); return true; }
+            for (size_t l = 0; l < h; ++l) if (n->next(l) != nullptr) {
+                std::printf("REPRODUCED class=stale-level-link after unsafe_extract the node of key %d (height %zu) still points at a node of the source container at level %zu: re-inserted through insert(node_type&&), a reader that reaches it at level 0 follows that link out of the container\n", key, h, l); return true; }
+            if (!levels_consistent(s, "after unsafe_extract")) return true;
+            (void)follower;
+            if (taken % 2) { s.insert(std::move(nh)); if (!nh.empty() || !levels_consistent(s, "after insert(node_type&&)")) { if (!nh.empty()) std::printf("REPRODUCED class=extract-reinsert the extracted node could not be inserted again\n"); return true; } }
+        }
+        // unsafe_erase(iterator) returns the follower
+        for (auto it = s.begin(); it != s.end();) { auto* n = it.my_node_ptr; auto* f = n->next(0); size_t before = s.size(); auto r = s.unsafe_erase(it);
+            if (r.my_node_ptr != f || s.size() != before - 1) { std::printf("REPRODUCED class=erase-result unsafe_erase(iterator) did not return the element that followed, or size() went from %zu to %zu\n", before, s.size()); return true; }
+            it = r; if (it != s.end()) ++it; }
+        if (!levels_consistent(s, "after unsafe_erase")) return true;
+    }
+    return false;
+}
 int main(int argc, char** argv) {
+    if (argc > 1 && (std::string(argv[1]).rfind("skip.extract", 0) == 0 || std::string(argv[1]).rfind("skip.erase", 0) == 0 || std::string(argv[1]).rfind("skip.node", 0) == 0)) { if (!extract_recipe()) std::printf("NOT-REPRODUCED\n"); return 0; }
     if (argc > 1 && std::string(argv[1]).rfind("skip.", 0) == 0) { if (!skip_recipe()) std::printf("NOT-REPRODUCED\n"); return 0; }
     if (argc > 1 && std::string(argv[1]).rfind("range.", 0) == 0 && range_recipe()) return 0;
     for (size_t n : {12u, 3u, 5u, 24u, 100u, 1000u}) {
